@@ -380,6 +380,124 @@ func runResumeBroker(c *Resume) *verdict {
 	return nil
 }
 
+// ---------------------------------------------------------------- (b') broker, offline stream
+
+// Offline is the offline-stream scenario: a persistent subscriber (granted QoS
+// 2, window Window) is offline while one publisher sends the numbered messages
+// Offline (QoS 0-2); it resumes without acknowledging, so the window fills and
+// the rest stays queued; the publisher sends Live; then the subscriber
+// acknowledges everything. Per QoS level the numbers must arrive in order.
+type Offline struct {
+	Window  int   `json:"window"`
+	Offline []int `json:"offline"`
+	Live    []int `json:"live"`
+}
+
+func runOffline(c *Offline) *verdict {
+	b := bk.New(func(m *broker.MemoryBackend, e *broker.Engine) { m.ClientInflightMessages = c.Window })
+	defer b.Shutdown()
+	pub, _ := b.Dial("pub")
+	if _, err := pub.ConnectID("pub", true); err != nil {
+		return vf(b.Log, "harness/publisher", "%v", err)
+	}
+	s, sconn := b.Dial("s")
+	if _, err := s.ConnectID("s", false); err != nil {
+		return vf(b.Log, "harness/subscriber", "%v", err)
+	}
+	if _, err := s.Subscribe([]packet.Subscription{{Topic: "c15/o", QOS: 2}}); err != nil {
+		return vf(b.Log, "harness/subscriber", "%v", err)
+	}
+	s.Disconnect()
+	if !b.WaitClosed(sconn) {
+		return vf(b.Log, "liveness/client-not-terminated", "subscriber's broker side did not terminate")
+	}
+	n := 0
+	send := func(qs []int) *verdict {
+		for _, q := range qs {
+			if err := pub.Publish("c15/o", []byte(fmt.Sprintf("o%d", n)), packet.QOS(q), false); err != nil {
+				return vf(b.Log, "harness/publish", "%v", err)
+			}
+			n++
+		}
+		return nil
+	}
+	if v := send(c.Offline); v != nil {
+		return v
+	}
+	s2, _ := b.Dial("s")
+	s2.AutoAck = false
+	ack, err := s2.ConnectID("s", false)
+	if err != nil || !ack.SessionPresent {
+		return vf(b.Log, "resume/session-lost", "unclean reconnect: %v", err)
+	}
+	// let the window fill (or everything arrive)
+	q12 := 0
+	for _, q := range c.Offline {
+		if q > 0 {
+			q12++
+		}
+	}
+	if q12 > c.Window {
+		q12 = c.Window
+	}
+	k := 0
+	if q12 > 0 && s2.WaitFor(0, func(g packet.Generic) bool {
+		if p, ok := g.(*packet.Publish); ok && p.Message.QOS > 0 {
+			k++
+		}
+		return k == q12
+	}, ev.Ceiling()) < 0 {
+		return vf(b.Log, "resume/missing-delivery", "only %d of the first %d queued QoS 1/2 messages arrived after the resume", k, q12)
+	}
+	if v := send(c.Live); v != nil {
+		return v
+	}
+	s2.AutoAck = true
+	// acknowledge what is pending, then everything flows
+	for _, g := range append([]packet.Generic{}, s2.Inbox...) {
+		if p, ok := g.(*packet.Publish); ok {
+			switch p.Message.QOS {
+			case 1:
+				_ = s2.Send(&packet.Puback{ID: p.ID})
+			case 2:
+				_ = s2.Send(&packet.Pubrec{ID: p.ID})
+			}
+		}
+	}
+	if err := pub.Publish("c15/o", []byte("o-end"), 1, false); err != nil {
+		return vf(b.Log, "harness/publish", "%v", err)
+	}
+	if s2.WaitFor(0, func(g packet.Generic) bool { p, ok := g.(*packet.Publish); return ok && string(p.Message.Payload) == "o-end" }, ev.Ceiling()) < 0 {
+		return vf(b.Log, "order/stream-incomplete", "the end marker (QoS 1) never arrived after the subscriber acknowledged everything")
+	}
+	s2.PumpWait(2 * time.Millisecond)
+	last := map[packet.QOS]int{}
+	got := map[int]bool{}
+	for _, g := range s2.Inbox {
+		p, ok := g.(*packet.Publish)
+		if !ok || string(p.Message.Payload) == "o-end" {
+			continue
+		}
+		var i int
+		fmt.Sscanf(string(p.Message.Payload), "o%d", &i)
+		if p.Dup && got[i] {
+			continue
+		}
+		got[i] = true
+		if prev, seen := last[p.Message.QOS]; seen && i <= prev {
+			return vf(b.Log, "order/offline-stream", "QoS %d message o%d arrived after o%d of the same publisher and QoS (o0..o%d were published while the subscriber was offline, the rest after its resume)", p.Message.QOS, i, prev, len(c.Offline)-1)
+		}
+		last[p.Message.QOS] = i
+	}
+	all := append(append([]int{}, c.Offline...), c.Live...)
+	for i, q := range all {
+		if q > 0 && !got[i] {
+			return vf(b.Log, "order/stream-incomplete", "QoS %d message o%d never arrived", q, i)
+		}
+	}
+	return nil
+}
+
 // syncAfterConnect performs a SUBSCRIBE round trip. Once its future completed
 // the client's processor has finished handling the CONNACK (which re-sends
 // whatever the session holds at that moment); API calls issued before that
@@ -826,7 +944,7 @@ func genResume(rt *rapid.T, side string) *Resume {
 
 func TestC15(t *testing.T) {
 	run := ev.Start("C15", "exploration")
-	run.Rule("(a) broker: 1-8 raw publishers each pipelining 2-25 numbered messages of mixed QoS on overlapping topics, 1-4 subscribers with one filter and granted QoS 0-2, window 1-10, everything concurrent: per (subscriber, publisher, published QoS) the sequence numbers must be strictly increasing and complete. (b) retransmission order, broker side and client-library side: 2-8 unacknowledged QoS 1/2 transmissions, a generated subset of the QoS 2 ones answered by PUBREC in a generated order, connection cut, unclean resume: the re-sent PUBLISH packets must keep their original order, the re-sent PUBREL packets the order of their first transmission. (c) client library inbound: the fake broker pipelines numbered messages of mixed QoS; per QoS level the callback order must equal the arrival order (both callback modes). (d) service: commands (publish QoS 0/1, subscribe, unsubscribe) issued before and after Start, optionally with a connection drop after j commands: the broker sees them in issue order, none lost without a failure. non-trivial = >= 2 concurrent publishers with a stream of >= 2, or a resume with >= 2 unacknowledged; distinct by case")
+	run.Rule("(a) broker: 1-8 raw publishers each pipelining 2-25 numbered messages of mixed QoS on overlapping topics, 1-4 subscribers with one filter and granted QoS 0-2, window 1-10, everything concurrent: per (subscriber, publisher, published QoS) the sequence numbers must be strictly increasing and complete. (b) retransmission order, broker side and client-library side: 2-8 unacknowledged QoS 1/2 transmissions, a generated subset of the QoS 2 ones answered by PUBREC in a generated order, connection cut, unclean resume: the re-sent PUBLISH packets must keep their original order, the re-sent PUBREL packets the order of their first transmission. (c) client library inbound: the fake broker pipelines numbered messages of mixed QoS; per QoS level the callback order must equal the arrival order (both callback modes). (d) service: commands (publish QoS 0/1, subscribe, unsubscribe) issued before and after Start, optionally with a connection drop after j commands: the broker sees them in issue order, none lost without a failure. non-trivial = >= 2 concurrent publishers with a stream of >= 2, or a resume with >= 2 unacknowledged; distinct by case (b') offline stream: a persistent subscriber (window 1-3) is offline while one publisher sends 1-8 numbered messages of QoS 0-2, resumes without acknowledging (window full, the rest queued), the publisher sends 1-6 more, then everything is acknowledged: per QoS level the numbers arrive in order and every QoS 1/2 message arrives.")
 	run.Assume("(a) publishers keep at most 5 QoS 2 handshakes open, as a well-behaved sender does (the broker's publish flow control is 10)", "(b) the relative order between re-sent PUBLISH and re-sent PUBREL packets is not judged (MQTT 4.6 orders each kind)")
 	defer run.Finish(t)
 
@@ -865,6 +983,23 @@ func TestC15(t *testing.T) {
 			}
 		})
 	}
+	run.Rapid(t, "offline-stream", ev.Pick(200, 8000), func(rt *rapid.T) {
+		c := &Offline{Window: rapid.IntRange(1, 3).Draw(rt, "window")}
+		mix := rapid.SampledFrom([][]int{{0}, {0, 1}, {0, 0, 1, 2}, {1, 2}}).Draw(rt, "mix")
+		for n := rapid.IntRange(1, 8).Draw(rt, "noff"); n > 0; n-- {
+			c.Offline = append(c.Offline, rapid.SampledFrom(mix).Draw(rt, "q"))
+		}
+		for n := rapid.IntRange(1, 6).Draw(rt, "nlive"); n > 0; n-- {
+			c.Live = append(c.Live, rapid.SampledFrom(mix).Draw(rt, "q"))
+		}
+		run.Eval(1)
+		run.Class("offline-stream")
+		run.NonTrivialJSON(c)
+		if v := runOffline(c); v != nil {
+			run.Candidate(v.sig, v.msg, c)
+			rt.Fatalf("%s: %s", v.sig, v.msg)
+		}
+	})
 	run.Rapid(t, "inbound", ev.Pick(300, 15000), func(rt *rapid.T) {
 		c := &Inbound{Early: rapid.Bool().Draw(rt, "early")}
 		mix := rapid.SampledFrom([][]int{{0}, {1}, {2}, {0, 1, 2}, {1, 2}}).Draw(rt, "mix")
@@ -922,6 +1057,10 @@ func TestReplay(t *testing.T) {
 			} else {
 				v = runResumeClient(&c)
 			}
+		case raw["offline"] != nil:
+			var c Offline
+			_, _ = ev.ReplayCase(&c)
+			v = runOffline(&c)
 		case raw["kinds"] != nil:
 			var c Commands
 			_, _ = ev.ReplayCase(&c)
